@@ -52,6 +52,8 @@ pub struct Prim {
   auto: bool,
   /// signed period, window
   poling: Option<(f64, Apodization)>,
+  /// generated through the crate's optimum calls (not a primitive, not on the wire)
+  matched: bool,
 }
 
 fn apod_wire(a: &Apodization) -> String {
@@ -162,7 +164,7 @@ impl Prim {
 }
 
 /// read the primitives back from a constructed SPDC
-fn prim_of(spdc: &SPDC, auto: bool) -> Prim {
+fn prim_of(spdc: &SPDC, auto: bool, matched: bool) -> Prim {
   let cs = &spdc.crystal_setup;
   let b = |b: &Beam, z0: f64| -> [f64; 6] {
     [
@@ -192,6 +194,7 @@ fn prim_of(spdc: &SPDC, auto: bool) -> Prim {
     sig: b(&spdc.signal, spdc.signal_waist_position.value_unsafe),
     idl: b(&spdc.idler, spdc.idler_waist_position.value_unsafe),
     auto,
+    matched,
     poling: match &spdc.pp {
       PeriodicPoling::Off => None,
       PeriodicPoling::On { period, sign, apodization } => Some((
@@ -343,7 +346,7 @@ fn gen_prim(r: &mut Rng) -> Option<Prim> {
       spdc.idler_waist_position = r.range(-1.0, 0.2) * l * M;
     }
   }
-  let p = prim_of(&spdc, auto);
+  let p = prim_of(&spdc, auto, phase_matched);
   let all = [
     p.ctheta, p.cphi, p.l, p.t, p.lam_p, p.wpx, p.wpy, p.bw, p.power, p.thr, p.deff,
   ];
@@ -610,7 +613,7 @@ fn spectrum(ctx: &mut Ctx, p: &Prim, spdc: &SPDC, singles: bool) {
         _ => ctx.count("compose/jsa/panic"),
       }
     }
-    if singles && (tag == "centre" || tag == "near") {
+    if singles && p.matched && tag == "centre" {
       // the singles integrand at a few (z1, z2) through the 2-point rule is not observable directly;
       // the 2-D Simpson integral is (rayon sum: order of additions is not fixed)
       let sdivs = *ctx.rng.pick(&[4usize, 6, 8]);
@@ -653,7 +656,7 @@ pub fn run(ctx: &mut Ctx) {
     match mode.as_str() {
       "c03" => geometry(ctx, &p, &spdc),
       "c06" => integrand(ctx, &p, &spdc),
-      "c07" => spectrum(ctx, &p, &spdc, false),
+      "c07" => spectrum(ctx, &p, &spdc, true),
       _ => {
         geometry(ctx, &p, &spdc);
         integrand(ctx, &p, &spdc);
